@@ -362,6 +362,10 @@ def defects(rnd, rows):
             yield "fixed-length-range", mod(i, 4, "2...9"), i
             yield "fixed-length-open", mod(i, 4, "2..."), i
             yield "fixed-length-zero", mod(i, 4, "0"), i
+            yield "fixed-length-exact-then-open-below", mod(i, 4, "3, ...2"), i
+            yield "fixed-length-open-below-then-exact", mod(i, 4, "...2, 3"), i
+            yield "fixed-length-exact-then-open-above", mod(i, 4, "3, 5..."), i
+            yield "fixed-length-two-exact", mod(i, 4, "3, 5"), i
         ftype = rows[i][5]
         bad_rule = {"Integer": "1...x", "Decimal": "1...a", "Choice": "a,,b", "Constant": "a b"}.get(ftype)
         if bad_rule:
